@@ -190,4 +190,27 @@ struct pattern_holder
     bool has_hole() const { return std::regex_search(pattern_, std::regex("\\{\\}")); }
 };
 inline std::size_t letters(const char* p) { return *p ? 1 + letters(p + 1) : 0; }
+
+// G-handlers: a handler that lets the exception vanish / passes it on / turns it into another class
+struct first_error : std::runtime_error { using std::runtime_error::runtime_error; };
+struct other_error : std::runtime_error { using std::runtime_error::runtime_error; };
+void may_fail(int);
+inline int swallows(int x)
+{
+    try { may_fail(x); }
+    catch (...) { x = 0; }
+    return x;
+}
+inline int passes_on(int x)
+{
+    try { may_fail(x); }
+    catch (const first_error&) { x = 0; throw; }
+    return x;
+}
+inline int translates(int x)
+{
+    try { may_fail(x); }
+    catch (const first_error& e) { throw other_error(e.what()); }
+    return x;
+}
 } // namespace vfix
